@@ -12,11 +12,12 @@ mkdir -p "$work" /verif/.bin /verif/evidence
 if [ ! -x /verif/.bin/vinstr ] || [ /verif/engine/vinstr/main.go -nt /verif/.bin/vinstr ]; then
   (cd /verif/engine/vinstr && go build -o /verif/.bin/vinstr .) || { echo "ENGINE-ERROR: vinstr build failed"; exit 2; }
 fi
-INSTR=(); NOSTMT=0; EXTRA_REPLACE=()
+INSTR=(); NOSTMT=0; STMTFUNCS=""; EXTRA_REPLACE=()
 [ -f "$dir/verif.conf" ] && . "$dir/verif.conf"
 MODCACHE=$(go env GOMODCACHE)
 args=(-work "$work" -repo "$REPO" -modcache "$MODCACHE")
 [ "$NOSTMT" = 1 ] && args+=(-nostmt)
+[ -n "$STMTFUNCS" ] && args+=(-stmtfuncs "$STMTFUNCS")
 for f in "${INSTR[@]}"; do f=${f//@MODCACHE@/$MODCACHE}; args+=(-instr "$f"); done
 for r in "${EXTRA_REPLACE[@]}"; do args+=(-replace "$r"); done
 /verif/.bin/vinstr "${args[@]}" || { echo "ENGINE-ERROR: instrumentation failed"; exit 2; }
